@@ -735,7 +735,7 @@ def c02e(F, R):
 
 
 # ============================================================================ C11
-def _reach_walk(f):
+def _reach_walk(f, extras=None):
     """the loop of mark_reachable that visits every node reachable from the entry, and the `iter_nexts` call it rests on:
     `for n in cfg.iter_nexts(entry)`, or `let S = cfg.iter_nexts(entry).collect(); for n in <nodes>.filter(|n| S.contains(n))`
     (the same set, walked in another order). -> [(loop, iter_nexts call)]"""
@@ -765,10 +765,24 @@ def _reach_walk(f):
                     ps = [x["name"] for p_ in cl.get("params") or [] for x in walk(p_) if x.get("k") == "PBinding"]
                     if ps and ekey(b["args"][0]).lstrip("&*") == ps[0]:
                         out.append((lp, sets[ekey(b["recv"]).lstrip("&*")]))
+                        if extras is not None:
+                            # every other adapter between the node list and the loop: only order- and element-preserving ones may appear
+                            chain = []
+                            x = peel(lp["iter"])
+                            while x.get("k") in ("MethodCall", "AddrOf") or (x.get("k") == "Call" and short(callee_of(x) or "") == "into_iter"):
+                                if x.get("k") == "MethodCall":
+                                    if x is not m:
+                                        chain.append(x["name"])
+                                    x = peel(x["recv"])
+                                elif x.get("k") == "Call":
+                                    x = peel(x["args"][0])
+                                else:
+                                    x = peel(x["e"])
+                            extras[id(lp)] = ([n_ for n_ in chain if n_ not in ("iter", "into_iter", "clone", "cloned", "by_ref")], ekey(x))
     return out
 
 
-@rule("C11", "C11.a.membership-pairing", floor=2)
+@rule("C11", "C11.a.membership-pairing", floor=3)
 def c11a(F, R):
     """in mark_reachable a node is pushed to the function's instruction list iff it is tagged with the function, and the walk follows successor edges from the entry"""
     p = [q for q in F.fns if q.endswith("FunctionMarkupPass::mark_reachable")]
@@ -776,11 +790,21 @@ def c11a(F, R):
         raise Anchor("FunctionMarkupPass::mark_reachable not found")
     f = F.fn(p[0])
     nins = inherent_methods(F, CFGNODE)["insert_function"]
-    loops = _reach_walk(f)
+    extras = {}
+    loops = _reach_walk(f, extras)
     if len(loops) != 1:
         R.bad("walk", f"UNEXTRACTABLE: expected one loop over the nodes `cfg.iter_nexts(entry)` reaches, found {len(loops)}", f["sp"])
         return
     lp, it = loops[0]
+    if id(lp) in extras:
+        dropping, src = extras[id(lp)]
+        cfg_param = [x.get("name") for x in f["hir"]["params"]][0] if f["hir"]["params"] else None
+        if dropping:
+            R.bad("walk-complete", f"the program-order walk over the reachable set passes through {dropping}: nodes of the function that such an adapter skips or cuts off (code laid out above the entry label, a tail reached by a backward branch) are not attributed to the function", loc(lp["iter"]))
+        elif src.lstrip("&*") != cfg_param:
+            R.bad("walk-complete", f"the program-order walk runs over `{src}`, not over the whole node list `{cfg_param}`", loc(lp["iter"]))
+        else:
+            R.ok("walk-complete", detail=f"every node of `{cfg_param}` that is in the reachable set is visited", where=loc(lp["iter"]))
     arg = ekey(it["args"][0]).replace("Rc::clone(", "").replace("clone(", "").rstrip(")").lstrip("&") if it.get("args") else None
     entry_param = [x.get("name") for x in f["hir"]["params"]]
     if arg in entry_param:
